@@ -20,7 +20,7 @@ m = {
     "engines": [
         {"name": "lean-model", "path": "lean/", "serves_properties": sorted(P.PROPS), "kind_free_text": "Lean 4 executable model (Esc/), property theorems (EscProofs/P/), core-only line-protocol driver (escmodel)"},
         {"name": "harness", "path": "harness/", "serves_properties": sorted(P.PROPS), "kind_free_text": "Go differential harness linking the real packages with -tags verif over simulated Kubernetes/AWS"},
-        {"name": "extract", "path": "extract/", "serves_properties": ["C16", "C17", "C18"], "kind_free_text": "go/ast translator /repo -> lean/Esc/Gen/*.lean, re-run on every check"},
+        {"name": "extract", "path": "extract/", "serves_properties": ["C01", "C02", "C03", "C04", "C05", "C06", "C07", "C09", "C10", "C11", "C12", "C13", "C14", "C15", "C16", "C17", "C18", "C19", "C20"], "kind_free_text": "go/ast translator /repo -> lean/Esc/Gen/*.lean (constants, validator, option keys; translated function bodies of the decision logic, proved equal to the model in lean/EscProofs/P/Gen*.lean; facts about func main and RunForever), re-run on every check; a piece that no longer matches falls back to extract/baseline/ and the correspondence"},
     ],
     "checks": [],
     "notes": "Every check: ./check <id> (quick) / ./check <id> --tier thorough. See DESIGN.md. fix: commits in /repo: " + ", ".join(P.FIX_COMMITS),
